@@ -91,6 +91,22 @@ Theorem all_expired_implies_deleted_in_cycle :
 Proof. exact deleted_in_cycle_ok. Qed.
 Print Assumptions all_expired_implies_deleted_in_cycle.
 
+(* Damaged stores: a share file that cannot be parsed (unknown version or magic,
+   or shorter than its container header) is recorded as corrupt and skipped;
+   it never makes process_bucket raise, so the crawl goes on (bucket_ok admits
+   such files, hence all_expired_implies_deleted_in_cycle also holds for good
+   shares lying next to damaged ones). *)
+Theorem unreadable_share_not_fatal :
+  forall pol now bk,
+    bucket_ok bk ->
+    snd (process_bucket pol now bk) = false /\
+    (forall j n t, nth_error bk j = Some (n, t, Unreadable) ->
+       nth_error (fst (process_bucket pol now bk)) j = Some (n, t, Unreadable)) /\
+    corrupt_shares pol now bk =
+      Some (map (fun e => fst (fst e)) (filter (fun e => match snd e with Unreadable => true | _ => false end) bk)).
+Proof. exact unreadable_not_fatal_ok. Qed.
+Print Assumptions unreadable_share_not_fatal.
+
 (* Leases made by the storage server at time t0 have renewal time t0 and the
    default duration under the accessors the expirer uses. *)
 Theorem server_lease_times :
